@@ -30,8 +30,8 @@ from gen import gr_resolver_inputs as gr
 from specs import resolver_spec as rs
 
 ID = 'C03'
-LEVEL = 'exploration'
-P_TARGETS = []
+LEVEL = 'other'
+P_TARGETS = ['cgsmiles.resolve:compatible', 'cgsmiles.resolve:match_bonding_descriptors', 'cgsmiles.resolve:MoleculeResolver.edges_from_bonding_descrpt']
 BUDGET = {'quick': 30.0, 'thorough': 400.0}
 CHUNK = 40
 BOUNDS = {
